@@ -25,6 +25,9 @@ type unit struct {
 	Depth   int            // container nesting bound override (0 = config)
 	MaxRuns int
 	Wrap    bool // rendering is a statement list, wrap into a function
+	// HashFlags lists feature atoms whose value distinguishes renderings with identical text (a rule that judges the text
+	// against the flag needs to see both)
+	HashFlags []string
 }
 
 func (u unit) key() string {
@@ -165,6 +168,11 @@ func runUnits(c *core.Check, st *tmpl.Static, units []unit, analyse func(r *rend
 							shapeKeys = append(shapeKeys, fmt.Sprintf("%s=%d", ck, cv))
 						}
 					}
+					for _, hf := range u.HashFlags {
+						if cv, ok := r.Choices[hf]; ok {
+							shapeKeys = append(shapeKeys, fmt.Sprintf("%s=%d", hf, cv))
+						}
+					}
 					sort.Strings(shapeKeys)
 					h := sha1.Sum([]byte(r.Text + "\x00" + strings.Join(r.Libs, ",") + "\x00" + strings.Join(shapeKeys, ",")))
 					if r.Err == nil && seen[h] {
@@ -232,9 +240,9 @@ func structUnits(set string, full bool) []unit {
 		unit{Set: set, Def: "StructLikeRead", DotRel: g, DotType: "StructLike", Lists: []int{0, 1, 2}, Cats: []string{"I32", "Struct"}},
 		unit{Set: set, Def: "StructLikeWrite", DotRel: g, DotType: "StructLike", Lists: []int{0, 1, 2}, Cats: []string{"I32", "Struct"}},
 		unit{Set: set, Def: "StructLikeReadField", DotRel: g, DotType: "StructLike", Lists: []int{1}},
-		unit{Set: set, Def: "StructLikeWriteField", DotRel: g, DotType: "StructLike", Lists: []int{1}},
+		unit{Set: set, Def: "StructLikeWriteField", DotRel: g, DotType: "StructLike", Lists: []int{1}, HashFlags: []string{"Features.ValueTypeForSIC"}},
 		unit{Set: set, Def: "StructLikeDeepEqual", DotRel: g, DotType: "StructLike", Lists: []int{0, 1, 2}, Cats: []string{"I32"}},
-		unit{Set: set, Def: "StructLikeDeepEqualField", DotRel: g, DotType: "StructLike", Lists: []int{1}},
+		unit{Set: set, Def: "StructLikeDeepEqualField", DotRel: g, DotType: "StructLike", Lists: []int{1}, HashFlags: []string{"Features.ValueTypeForSIC"}},
 	)
 	return us
 }
